@@ -100,7 +100,8 @@ def h_variants(ctx):
     p = ctx.params
     metric = ctx.choose("metric", p["metrics"], free=True)
     x = ctx.choose("x", p["vx"], free=True)
-    typ = ctx.choose("type", p["vtypes"], free=True)
+    # diagrams only have a plot: their option variants are drawn, the metrics' variants are tabulated (thorough: both for all)
+    typ = ctx.choose("type", p["vtypes"] + (["plot"] if (metric in DIAGRAMS and "plot" not in p["vtypes"]) else []), free=True)
     variant = ctx.choose("variant", p["variants"], free=True)
     run_cell(ctx, "regular", metric, x, typ, variant)
 
@@ -159,7 +160,7 @@ def h_edgetypes(ctx):
 def params_for(tier):
     metrics = metric_names() + DIAGRAMS
     variants = [("-r", "1,2,3"), ("-q", "0.1,0.9"), ("-r", "2"), ("-q", "0.5")]
-    variants += [("-b", b, "-r", "1,2,3") for b in BIN_TYPES] + [("-b", b) for b in BIN_TYPES]
+    variants += [("-b", b, "-r", "1,2,3") for b in BIN_TYPES] + [("-b", b) for b in BIN_TYPES] + [("-b", b, "-r", "2") for b in BIN_TYPES]
     variants += [("-agg", a) for a in AGGS]
     # pre-aggregation on either axis (probabilities and quantiles are then derived from the 4-d ensemble array)
     variants += [("-T", "24"), ("-T", "24", "-Tx", "time"), ("-T", "24", "-Tx", "time", "-r", "2"), ("-T", "24", "-Tx", "time", "-q", "0.5")]
